@@ -133,6 +133,32 @@ theorem fullStatus_iterations (d : Bytes) (r : List PV) (h : fullStatusDescripto
           simp only [List.length_drop] at this
           omega
 
+/-- REPORT PRIORITY: at most one descriptor per 8 bytes (+1) -/
+theorem priority_iterations (d : Bytes) (r : List PV) (h : priorityDescriptors d = .ok r) :
+    r.length * 8 ≤ d.length + 7 := by
+  induction hn : d.length using Nat.strongRecOn generalizing d r with
+  | _ n ih =>
+    unfold priorityDescriptors at h
+    by_cases h0 : d.length = 0
+    · simp only [h0, dite_true] at h; cases h; simp
+    · simp only [h0, dite_false] at h
+      cases h1 : decodeInto d Gen.ReportPriority_data_bits [] with
+      | error e => simp [h1] at h
+      | ok rr =>
+        simp only [h1] at h
+        cases h2 : getInt rr "adlen" with
+        | error e => simp [h2] at h
+        | ok adlen =>
+          simp only [h2] at h
+          cases h3 : priorityDescriptors (d.drop (adlen + 8)) with
+          | error e => simp [h3] at h
+          | ok rest =>
+            simp only [h3] at h
+            cases h
+            have := ih _ (by simp; omega) _ rest h3 rfl
+            simp only [List.length_drop, List.length_cons] at this ⊢
+            omega
+
 /-- READ CD: exactly `tl` iterations, the caller's transfer length (the buffer has `3072·tl` bytes) -/
 theorem readCd_iterations (d : Bytes) (m est c2ei scsb lba tl : Nat) (r : List (String × PV))
     (h : readCdLoop d m est c2ei scsb lba tl = .ok r) : r.length = tl := by
